@@ -196,6 +196,10 @@ func sortedKeys(m map[string]int) []string {
 
 // writeShards writes case terms into K files cases_<kind>_<k>.v, each evaluating `mismatches`.
 func writeShards(dir, kind, require, caseType string, terms []string, shards int) []string {
+	return writeShardsFn(dir, kind, require, caseType, "mismatches", terms, shards)
+}
+
+func writeShardsFn(dir, kind, require, caseType, fn string, terms []string, shards int) []string {
 	if shards < 1 {
 		shards = 1
 	}
@@ -214,7 +218,7 @@ func writeShards(dir, kind, require, caseType string, terms []string, shards int
 		sb.WriteString("From C4E Require Import " + require + ".\nOpen Scope Z_scope.\n")
 		sb.WriteString("Definition cases : list " + caseType + " := [\n")
 		sb.WriteString(strings.Join(terms[lo:hi], ";\n"))
-		sb.WriteString("\n].\nDefinition M := Eval vm_compute in mismatches cases.\nPrint M.\n")
+		sb.WriteString("\n].\nDefinition M := Eval vm_compute in " + fn + " cases.\nPrint M.\n")
 		if err := os.WriteFile(name, []byte(sb.String()), 0o644); err != nil {
 			panic(err)
 		}
